@@ -172,26 +172,53 @@ Proof.
   autorewrite with monp. reflexivity.
 Qed.
 
+Lemma mview_fields : forall m' m0, mview m' = mview m0 ->
+  a_fd m' = a_fd m0 /\ a_fh m' = a_fh m0 /\ a_ck m' = a_ck m0 /\ a_tm m' = a_tm m0 /\ a_exp m' = a_exp m0 /\
+  a_tk m' = a_tk m0 /\ a_ev m' = a_ev m0 /\ a_evp m' = a_evp m0 /\ a_rw m' = a_rw m0 /\ a_main m' = a_main m0 /\
+  a_quit m' = a_quit m0 /\ a_clk m' = a_clk m0.
+Proof.
+  intros m' m0 V.
+  repeat split.
+  - change (a_fd (mview m') = a_fd (mview m0)); rewrite V; reflexivity.
+  - change (a_fh (mview m') = a_fh (mview m0)); rewrite V; reflexivity.
+  - change (a_ck (mview m') = a_ck (mview m0)); rewrite V; reflexivity.
+  - change (a_tm (mview m') = a_tm (mview m0)); rewrite V; reflexivity.
+  - change (a_exp (mview m') = a_exp (mview m0)); rewrite V; reflexivity.
+  - change (a_tk (mview m') = a_tk (mview m0)); rewrite V; reflexivity.
+  - change (a_ev (mview m') = a_ev (mview m0)); rewrite V; reflexivity.
+  - change (a_evp (mview m') = a_evp (mview m0)); rewrite V; reflexivity.
+  - change (a_rw (mview m') = a_rw (mview m0)); rewrite V; reflexivity.
+  - change (a_main (mview m') = a_main (mview m0)); rewrite V; reflexivity.
+  - change (a_quit (mview m') = a_quit (mview m0)); rewrite V; reflexivity.
+  - change (a_clk (mview m') = a_clk (mview m0)); rewrite V; reflexivity.
+Qed.
+
+(* turn the outermost let of the argument into a local definition (no duplication of terms) *)
+Ltac lift_let := lazymatch goal with
+  | |- ?F (let x := ?v in @?b x) = ?R =>
+      let y := fresh x in set (y := v); change (F (b y) = R); cbv beta
+  | |- ?F (let x := ?v in @?b x) =>
+      let y := fresh x in set (y := v); change (F (b y)); cbv beta
+  end.
+
 Lemma mview_TRet_some : forall m n fds clk,
   mview (mon_step m (TRet (Some n) fds clk)) = mview (m_loop m (a_main m) (a_quit m) clk false).
 Proof.
-  intros. unfold mon_step. cbv zeta.
-  rewrite mview_m_iter, mview_m_spin.
-  match goal with |- mview (m_loop ?X ?a ?b _ _) = _ =>
-    assert (V : mview X = mview m) end.
-  { rewrite mview_m_wait, mview_chk.
-    match goal with |- mview (if ?c then _ else _) = _ => destruct c end.
-    - destruct (min_expiry _); rewrite ?mview_chk; reflexivity.
-    - rewrite !mview_chk. reflexivity. }
-  match goal with |- mview (m_loop ?X ?a ?b _ _) = _ => set (X0 := X) in * end.
-  unfold mview at 1. cbn [a_fd a_fh a_ck a_tm a_exp a_tk a_ev a_evp a_rw a_main a_quit a_clk m_loop].
-  change (a_fd X0) with (a_fd (mview X0)). change (a_fh X0) with (a_fh (mview X0)).
-  change (a_ck X0) with (a_ck (mview X0)). change (a_tm X0) with (a_tm (mview X0)).
-  change (a_exp X0) with (a_exp (mview X0)). change (a_tk X0) with (a_tk (mview X0)).
-  change (a_ev X0) with (a_ev (mview X0)). change (a_evp X0) with (a_evp (mview X0)).
-  change (a_rw X0) with (a_rw (mview X0)). change (a_main X0) with (a_main (mview X0)).
-  change (a_quit X0) with (a_quit (mview X0)).
-  rewrite V. reflexivity.
+  intros. lazy beta iota delta [mon_step]. repeat lift_let.
+  assert (V0 : mview m0 = mview m) by apply mview_chk.
+  assert (V1 : mview m1 = mview m) by (unfold m1; rewrite mview_chk; exact V0).
+  assert (V2 : mview m2 = mview m) by (unfold m2; rewrite mview_chk; exact V1).
+  assert (V3 : mview m3 = mview m) by (unfold m3; rewrite mview_chk; exact V2).
+  assert (V4 : mview m4 = mview m) by (unfold m4; rewrite mview_chk; exact V3).
+  assert (V5 : mview m5 = mview m).
+  { unfold m5. destruct (slept && negb (a_stale m4)); [|exact V4].
+    destruct (min_expiry m4); [|exact V4]. cbv zeta. rewrite !mview_chk. exact V4. }
+  assert (V6 : mview m6 = mview m) by (unfold m6; rewrite mview_chk; exact V5).
+  assert (V7 : mview m7 = mview m) by (unfold m7; rewrite mview_m_wait; exact V6).
+  rewrite mview_m_iter. unfold m9. rewrite mview_m_spin. unfold m8. clearbody m7.
+  destruct (mview_fields m7 m V7) as (Q1 & Q2 & Q3 & Q4 & Q5 & Q6 & Q7 & Q8 & Q9 & Q10 & Q11 & Q12).
+  unfold mview. cbn [a_fd a_fh a_ck a_tm a_exp a_tk a_ev a_evp a_rw a_main a_quit a_clk m_loop].
+  rewrite Q1, Q2, Q3, Q4, Q5, Q6, Q7, Q8, Q9, Q10, Q11. reflexivity.
 Qed.
 
 Lemma mview_TMain : forall m, mview (mon_step m TMain) = mview (m_loop m true false (a_clk m) false).
@@ -322,16 +349,22 @@ Qed.
 Lemma good_TRet_some : forall m n fds clk, Goodm m -> a_clk m <= clk ->
   Goodm (mon_step m (TRet (Some n) fds clk)).
 Proof.
-  intros m n fds clk G C. unfold mon_step. cbv zeta.
-  do 4 gstep.
-  match goal with |- Goodm (chk ?X _ 407) => assert (GX : Goodm X /\ a_clk X = a_clk m) end.
-  { match goal with |- Goodm (if ?c then _ else _) /\ _ => destruct c end.
-    - destruct (min_expiry _).
-      + split; [repeat gstep; assumption|autorewrite with monp; reflexivity].
-      + split; [repeat gstep; assumption|autorewrite with monp; reflexivity].
-    - split; [repeat gstep; assumption|autorewrite with monp; reflexivity]. }
-  destruct GX as [GX CX]. apply Goodm_chk_true; [assumption|].
-  rewrite CX. apply Z.leb_le. assumption.
+  intros m n fds clk G C. lazy beta iota delta [mon_step]. repeat lift_let.
+  assert (G0 : Goodm m0) by (unfold m0; gstep; assumption).
+  assert (G1 : Goodm m1) by (unfold m1; gstep; assumption).
+  assert (G2 : Goodm m2) by (unfold m2; gstep; assumption).
+  assert (G3 : Goodm m3) by (unfold m3; gstep; assumption).
+  assert (G4 : Goodm m4) by (unfold m4; gstep; assumption).
+  assert (V4 : a_clk m4 = a_clk m) by (unfold m4, m3, m2, m1, m0; autorewrite with monp; reflexivity).
+  assert (G5 : Goodm m5 /\ a_clk m5 = a_clk m).
+  { unfold m5. destruct (slept && negb (a_stale m4)); [|split; assumption].
+    destruct (min_expiry m4); [|split; assumption]. cbv zeta.
+    split; [repeat gstep; assumption|autorewrite with monp; exact V4]. }
+  destruct G5 as [G5 V5].
+  assert (G6 : Goodm m6).
+  { unfold m6. apply Goodm_chk_true; [assumption|]. rewrite V5. apply Z.leb_le. assumption. }
+  unfold m9, m8, m7. clearbody m6.
+  repeat gstep. assumption.
 Qed.
 
 Lemma good_TEnd : forall m q n, Goodm m -> Bool.eqb (q =? 1) (a_quit m) = true ->
